@@ -19,10 +19,11 @@ var Dict = append(append([]string{}, Keywords...),
 	"jsight", "regex", "any", "empty", "json-rpc-2.0", "htmlFormEncoded", "noFormat", "###", "//", "/*", "*/", "0.3",
 	"@a", "[@a]", "/a/{id}", "{}", "[]", "{\"a\":1}", "\"", "\\", "(", ")", "#", "\n", "\r\n", "\r", "\t", " ",
 	"// {enum: @e}", "// {allOf: @a}", "// {or: [@a, @b]}", "// {type: \"@a\"}", "@a | @b", "/ab+c/",
+	"/^[A-Z]:\\\\/ # x /", "\\\\/", " /", "à", "Å", "\"regex\"", "\"any\"", "\"@a\"", "\"[@a]\"", "\"jsight\"",
 )
 
 // Bytes that matter to the grammar.
-var hot = []byte("()#/*\"\\{}[]@:,\r\n\t \x00\xff-.|JIUGPTMEDSRBQHV1250")
+var hot = []byte("()#/*\"\\{}[]@:,\r\n\t \x00\xff-.|JIUGPTMEDSRBQHV1250\x85\xa0\x0b\x0c\xc3")
 
 // Tokens is the alphabet of the token-sequence enumerator.
 var Tokens = []string{
@@ -33,6 +34,10 @@ var Tokens = []string{
 	"@t", "[@t]", "/p/{id}", "\"q s\"", "\"\\\\\"", "regex", "any", "empty", "jsight", "0.3", "json-rpc-2.0", "x.jst",
 	"{}", "{\"a\":1}", "[]", "[\"a\"]", "/re/", "text",
 	"\x00", "\xff",
+	// bodies that end in an escaped backslash, a later lone slash, bytes that are blanks only in Latin-1
+	"/a\\\\/", "#c /", "/voil\xc3\xa0", "\xc3\x85", "\x0b", "\xa0",
+	// directive prefixes that expect a body on the next line
+	"TYPE @r regex\n", "TYPE @j\n", "ENUM @e\n", "200 regex\n", "Description\n",
 }
 
 // Joiners used between tokens.
